@@ -179,6 +179,11 @@ def insertion(ctx, p, k, v, keep_key, absent, present, full_none=None):
         ctx.req('OUT', p.len_is(1) and z.entails_eq(idx, ms.len0), nm + ':append',
                 'on the not-found path len must grow by exactly one and the new entry sits at the old len', p)
         ctx.req('OUT', absent(p, idx), nm + ':append-result', 'wrong result for an absent key', p)
+        z2 = z.copy()
+        z2.add_eq(ms.cap, ms.len0, 1)
+        if z2.sat:
+            # this accepted append is consistent with "exactly one slot was free": the last slot is usable
+            ctx.classes['append@last-slot'] += 1
         if not (ctx.body.unsafe and p.E.contract):
             ctx.req('CAP', z.entails_lt(ms.len0, ms.cap) and not p.st.assumed, nm + ':append',
                     'a new entry may be accepted (normal return) only when the container held fewer than N entries; '
@@ -965,7 +970,9 @@ def bulk_iteration(props, pulled_by, key_of_item):
                'drop, skip or reorder items (offending call: %s)' % (bad[1] if bad else None), it)
         hits = it.ev('hit')
         apps = it.ev('append')
-        it_req(E, props, 'ONCE', len(hits) + len(apps) == 1, nm + ':iteration',
+        # (an item that is neither stored nor makes the call panic has been dropped silently -- for a full
+        #  container that is also not the clean refusal C03 demands)
+        it_req(E, props | ({'C03'} if not hits and not apps else set()), 'ONCE', len(hits) + len(apps) == 1, nm + ':iteration',
                'each pulled item must be inserted exactly once (found-and-replaced or appended)', it)
         if len(hits) + len(apps) != 1:
             return
@@ -1057,6 +1064,9 @@ def h_clone_result(ctx, p):
     if ok:
         ctx.req('OUT', p.z.entails_eq(ms.len, src.len), nm, 'the clone must have the length of the original', p)
         ctx.req('OUT', p.untouched() and p.len_is(0), nm, 'cloning must not change the original', p)
+        ctx.req('ONCE', not ms.extras and slots.empty(p.z, ms.extra_rng) and not ms.holes and slots.empty(p.z, ms.hole_rng), nm,
+                'the clone must hold exactly len cloned elements: nothing cloned into slots beyond len, no slot below '
+                'len left unwritten (each stored element is cloned exactly once)', p)
 
 
 # ------------------------------------------------------------------------------ two-container quantifiers
@@ -1642,6 +1652,11 @@ def serialize_iteration(entry, nargs):
             bad = [e for e in seg if e[0] == 'variant' and e[2] == 1 and isinstance(e[1], tuple) and e[1][:1] == ('u',)
                    and e[1][1].endswith('::' + entry)]
             it_req(E, props, 'ERRPROP', not bad, nm + ':iteration', 'the loop must not continue after an element failed to serialize', it)
+            seen_ok = [e for e in seg if e[0] == 'variant' and e[2] == 0 and isinstance(e[1], tuple) and e[1][:1] == ('u',)
+                       and e[1][1].endswith('::' + entry)]
+            it_req(E, props, 'ERRPROP', bool(seen_ok), nm + ':iteration',
+                   'the loop may go on only after the result of the serializer call was examined and found Ok '
+                   '(a result that is discarded unexamined swallows the error)', it)
         return hook
     return mk
 
@@ -2584,7 +2599,7 @@ def required_classes(key):
     if key[0] in (DIFF, DIFFREF, INTER) and key[2] == 'fold':
         return {'folded-all'}
     if key in INSERTIONS:
-        return {'hit', 'append'} | ({'neither'} if INSERTIONS[key][6] is not None else set())
+        return {'hit', 'append', 'append@last-slot'} | ({'neither'} if INSERTIONS[key][6] is not None else set())
     if key in REMOVALS:
         return {'hit', 'miss'}
     if key in LOOKUPS:
@@ -2787,7 +2802,7 @@ HANDLERS.update({
 CLASSES[(SET, 'Extend', 'extend')] = {'extended'}
 CLASSES[('&set::Set', 'Sub', 'sub')] = {'built'}
 # insert_unchecked: "full map, key present" is inside the contract: replacing must return normally there too
-CLASSES[(MAP, None, 'insert_unchecked')] = {'hit', 'append', 'hit@no-append', 'hit@not-full'}
+CLASSES[(MAP, None, 'insert_unchecked')] = {'hit', 'append', 'append@last-slot', 'hit@no-append', 'hit@not-full'}
 CLASSES[(MAP, None, 'get_disjoint_unchecked_mut')] = {'returned'}
 for _k in list(HANDLERS):
     if _k[0] in (MAP, SET) and _k[1] in (None, 'Default'):
